@@ -74,10 +74,6 @@ func scenariosFor(prop string) []scn {
 		// dead-lettering and the nack window must follow source order, not arrival order
 		both(flowParams{Sources: 1, Records: 2, Batch: 1, Dests: 1, AckMenu: okNack, Procs: []procParam{{ID: "pp", Kinds: []string{"p", "e"}}}}, 2, 3)
 		both(flowParams{Sources: 1, Records: 2, Batch: 1, Dests: 1, AckMenu: okNack, Window: 2, Thresh: 1, Procs: []procParam{{ID: "pp", Kinds: []string{"p", "e"}}}}, 2, 3)
-		// a record is split and one of its pieces is split again by a later processor (split, then clone): the original is
-		// acknowledged once all leaves are through, the records behind it afterwards
-		both(flowParams{Sources: 1, Records: 3, Batch: 3, Dests: 1, AckMenu: onlyOK, Procs: []procParam{{ID: "pp", Kinds: []string{"p", "2", "p"}}, {ID: "pq", Kinds: []string{"p", "2", "p"}}}}, 1, 2)
-		both(flowParams{Sources: 1, Records: 2, Batch: 1, Dests: 2, AckMenu: onlyOK, Procs: []procParam{{ID: "pp", Parent: "d1", Kinds: []string{"2", "p"}}, {ID: "pq", Parent: "d1", Kinds: []string{"2", "p"}}}}, 1, 2)
 		// a destination that confirms one write in several responses (record by record / in two halves), rejections in the
 		// later ones
 		both(flowParams{Sources: 1, Records: 4, Batch: 4, Dests: 1, AckMenu: []string{"ok", "k:0011", "h:0011", "k:0110", "k:1001"}, Stop: ""}, 1, 2)
@@ -110,6 +106,14 @@ func scenariosFor(prop string) []scn {
 		both(flowParams{Sources: 1, Records: 3, Batch: 1, Dests: 2, AckMenu: onlyOK, Procs: []procParam{{ID: "pp", Workers: 1, Kinds: []string{"p", "f", "p"}}}}, 1, 3)
 	case "C01", "C02", "C03", "C04", "C05", "C07":
 		data()
+		if prop == "C04" {
+			// (C04 only: its oracle speaks of source acks and positions; the piece bookkeeping of the other properties'
+			// oracles knows one level of splitting)
+			// a record is split and one of its pieces is split again by a later processor (split, then clone): the original is
+			// acknowledged once all leaves are through, the records behind it afterwards
+			both(flowParams{Sources: 1, Records: 3, Batch: 3, Dests: 1, AckMenu: onlyOK, Procs: []procParam{{ID: "pp", Kinds: []string{"p", "2", "p"}}, {ID: "pq", Kinds: []string{"p", "2", "p"}}}}, 1, 2)
+			both(flowParams{Sources: 1, Records: 2, Batch: 1, Dests: 2, AckMenu: onlyOK, Procs: []procParam{{ID: "pp", Parent: "d1", Kinds: []string{"2", "p"}}, {ID: "pq", Parent: "d1", Kinds: []string{"2", "p"}}}}, 1, 2)
+		}
 	case "C20":
 		// every fatal cause the engines know, each through the different paths an error can take to the lifecycle service
 		// (destination acker, processor node, parallel processor node, fan-out siblings): the fatal mark must survive
